@@ -50,7 +50,7 @@ class SumAggregator:
         self.unique_names = UniqueNames(prg, input_predicates)
         self.input_predicates: set[Predicate] = set(input_predicates)
         self.rule_dependency = RuleDependency(prg)
-        self.domain_predicates = DomainPredicates(self.unique_names, prg)
+        self.domain_predicates = DomainPredicates(self.unique_names, prg, input_predicates)
         # list of ({AggregateFunction.Max, AggregateFunction.Min}, Translation, index)
         #  where index is the position of the variable indicating the minimum/maximum
         self._atmost_preds: list[AnnotatedPredicate]
